@@ -101,7 +101,10 @@ Lemma get_prop_spec inp v k s v' s' :
   v' <> VInp /\ ((v = VInp /\ s' = (fst s, k :: snd s)) \/ (v <> VInp /\ s' = s)).
 Proof.
   destruct v; simpl; intros H; try discriminate.
-  - destruct (String.eqb k "length"); inversion H; subst. split; [discriminate|right; split; [discriminate|reflexivity]].
+  - inversion H; subst. split; [discriminate|right; split; [discriminate|reflexivity]].
+  - destruct (String.eqb k "length"); [|destruct (all_digits k); [discriminate|]]; inversion H; subst;
+      (split; [discriminate|right; split; [discriminate|reflexivity]]).
+  - inversion H; subst. split; [discriminate|right; split; [discriminate|reflexivity]].
   - inversion H; subst. split.
     + destruct (assoc k inp) as [i|]; [destruct i|]; discriminate.
     + left; split; reflexivity.
